@@ -164,10 +164,14 @@ def _candidates(v, style="dyadic"):
             c = Fraction(round(v * d), d)
             if c.denominator != 1 and c not in out:
                 out.append(c)
+    import math
+
     for d in (1, 2, 8, 256, 65536, 1 << 30, 1 << 48):
-        c = Fraction(round(v * d), d)
-        if c not in out:
-            out.append(c)
+        # nearest first, then the two neighbours on the grid: a model value of -5e-9 that only has to be negative
+        # becomes -1 instead of -5/2^30 (margins of order one keep replays away from the LP solver's own tolerances)
+        for c in (Fraction(round(v * d), d), Fraction(math.floor(v * d), d), Fraction(math.ceil(v * d), d)):
+            if c not in out:
+                out.append(c)
     return out
 
 
